@@ -18,7 +18,7 @@ F(ok, name) == IF ok THEN "" ELSE name \o "; "
 
 Expect(rs, ch) ==
   LET r == LookupIn(rs, ch) IN
-  IF target' \in {"word", "ws"} THEN (IF r = NoRef THEN "nil" ELSE "set") ELSE r
+  IF target' \in {"word", "ws", "word0", "ws0"} THEN (IF r = NoRef THEN "nil" ELSE "set") ELSE r
 
 \* indices of the probes whose looked-up identity is not the latest covering registration
 Bad(look, rs) == {i \in 1 .. Len(look) : look[i][2] # Expect(rs, look[i][1])}
@@ -29,8 +29,13 @@ LookFails(look, rs) ==
        "lookup does not return the latest covering registration; ## first bad probe "
          \o ToString(look[i][1]) \o " returned " \o look[i][2] \o " expected " \o Expect(rs, look[i][1])
 
+\* a word / whitespace state used as constructed starts with its default registrations ("word0", "ws0")
+InitialRegs(tg) ==
+  CASE tg = "ws0"   -> << <<0, 32, "A">> >>
+    [] tg = "word0" -> << <<97, 122, "A">>, <<65, 90, "A">>, <<48, 57, "A">>, <<45, 45, "A">>, <<95, 95, "A">>, <<192, 255, "A">>, <<256, 65535, "A">> >>
+    [] OTHER        -> <<>>
 Apply(e) ==
-  CASE e.op = "new"        -> regs' = <<>> /\ target' = e.target
+  CASE e.op = "new"        -> regs' = InitialRegs(e.target) /\ target' = e.target
     [] e.op = "add"        -> AddInterval(e.lo, e.hi, e.ref) /\ UNCHANGED target
     [] e.op = "adddefault" -> AddDefault(e.ref) /\ UNCHANGED target
     [] e.op = "clear"      -> Clear /\ UNCHANGED target
